@@ -20,7 +20,7 @@ RULE = ('(1) streams: every text of <= 4 lines (thorough 5) where each line is o
         'accepts; the real object\'s (indent stack, bracket depth) is read after every token and compared with the reference state. '
         '(2) histories: every sequence of <= 3 streams from a set of representative streams (complete, ending in DedentError, in a '
         'lexing error inside brackets, abandoned after j tokens) through ONE Indenter object: each stream\'s output must equal that of '
-        'a fresh object. states = (indent stack, bracket depth) of the real object after a token; transitions = tokens processed')
+        'a fresh object. (3) an abandoned stream kept referenced and closed only after r tokens of the next stream (every pair of streams, abandon point 1..4, release point 0..5), followed by a third stream: no effect on the later streams. states = (indent stack, bracket depth) of the real object after a token; transitions = tokens processed')
 ASSUMPTIONS = ['tabs counted as tab_len columns (coincides with CPython for tabs preceding spaces at column 0 when tab_len = 8)',
                'a whitespace-only LAST line without final newline is not judged (the statement and CPython disagree there; counted)',
                'comment-only lines under the plain spelling (comments %ignored separately) are judged against the token-level rule of the statement, not against CPython']
@@ -282,6 +282,62 @@ def part2(first, depth, res, only=None):
                 break
 
 
+def part3(s1, res, only=None):
+    """An abandoned stream that is still referenced, and released (closed) only while a later stream is being read: stream
+    s1 is abandoned after j tokens and kept; stream s2 is read in full, the kept generator being closed after r tokens of it;
+    then stream s3 is read.  s2 and s3 must come out exactly as from a fresh object."""
+    fresh = {s: run_stream(Lark(G_PLAIN, parser='lalr', lexer='basic', postlex=mk_indenter(8)), STREAMS[s], None) for s in range(len(STREAMS))}
+    for j in (1, 2, 3, 4):
+        for s2 in range(len(STREAMS)):
+            for r in range(0, 6):
+                for s3 in (0, 3, 9):
+                    if only and (only['abandon_after'], only['second'], only['release_after'], only['third']) != (j, s2, r, s3):
+                        continue
+                    p = Lark(G_PLAIN, parser='lalr', lexer='basic', postlex=mk_indenter(8))
+                    held = iter(p.lex(STREAMS[s1]))
+                    try:
+                        for _ in range(j):
+                            next(held)
+                    except (StopIteration, DedentError, UnexpectedInput, AssertionError):
+                        pass
+                    out = []
+                    try:
+                        n = 0
+                        it = iter(p.lex(STREAMS[s2]))
+                        while True:
+                            if n == r and held is not None:
+                                held.close()
+                                held = None
+                            try:
+                                t = next(it)
+                            except StopIteration:
+                                break
+                            out.append((t.type, str(t)))
+                            n += 1
+                        got2 = ('ok', tuple(out))
+                    except DedentError:
+                        got2 = ('dedent-error', tuple(out))
+                    except UnexpectedInput:
+                        got2 = ('lex-error', tuple(out))
+                    except AssertionError:
+                        got2 = ('assertion', tuple(out))
+                    if held is not None:
+                        held.close()
+                    got3 = run_stream(p, STREAMS[s3], None)
+                    res['traces'] += 1
+                    res['transitions'] += 3
+                    res['states'] += 3
+                    res['nontrivial'] += 1
+                    case = {'part': 3, 'first': s1, 'abandon_after': j, 'second': s2, 'release_after': r, 'third': s3,
+                            'streams': [STREAMS[s1], STREAMS[s2], STREAMS[s3]]}
+                    if got2 != fresh[s2]:
+                        res['viol'].append({'kind': 'stream-disturbed-by-release-of-abandoned-stream', 'cause': 'held-generator', 'case': case,
+                                            'expected': fresh[s2], 'observed': got2})
+                    elif got3 != fresh[s3]:
+                        res['viol'].append({'kind': 'stream-history-dependence', 'cause': 'held-generator', 'case': case,
+                                            'expected': fresh[s3], 'observed': got3})
+
+
 def plan(tier, seed):
     nlines = 4 if tier == 'quick' else 5
     n = sum(1 for _ in texts(nlines))
@@ -291,6 +347,7 @@ def plan(tier, seed):
     if tier == 'quick':
         ops = [o for o in ops if o[1] in (None, 2)]
     items += [('p2', op, depth) for op in ops]
+    items += [('p3', s1) for s1 in range(len(STREAMS))]
     return items
 
 
@@ -305,6 +362,8 @@ def work(item):
     res = new_res()
     if item[0] == 'p1':
         part1(item[1], item[2], item[3], res)
+    elif item[0] == 'p3':
+        part3(item[1], res)
     else:
         part2(tuple(item[1]), item[2], res)
     res['counters'] = dict(res['counters'])
@@ -315,6 +374,8 @@ def replay(case):
     res = new_res()
     if case['part'] == 1:
         part1(case['nlines'], 0, None, res, only=case)
+    elif case['part'] == 3:
+        part3(case['first'], res, only=case)
     else:
         part2(None, case['depth'], res, only=case)
     return res['viol']
